@@ -126,6 +126,7 @@ static void c08_wait_cfg(int ti, int di, int ci, int tier)
   vk_cfg.total_bound = tier ? 2 : 1;
   snprintf(key8, sizeof key8, "h_c08|wait(%d)|deadline=%d|child=%s", timeout, deadline, ci == 1 ? "exits" : "idle");
   hx_desc("%s|%s", key8, ci == 2 ? "twice" : "once");
+  snprintf(key8, sizeof key8, "h_c08|wait|timeout=%s|deadline=%s", timeout == -1 ? "infinite" : timeout == -2 ? "until-deadline" : "finite", deadline ? "set" : "none");
   hx_begin();
   vk_set_hang_hook(c08_hang);
   g_kind8 = 0;
@@ -274,6 +275,7 @@ static void c08_poll_cfg(int n, const int *kinds, int ii, int ti, int ce)
   for (int i = 0; i < n; i++) { strcat(ks, sk_names[kinds[i]]); strcat(ks, i + 1 < n ? "," : ""); }
   snprintf(key8, sizeof key8, "h_c08|poll|sources=%s|interests=%x|timeout=%d|children=%s", ks, (unsigned) interests, timeout, ce_names[ce]);
   hx_desc("%s", key8);
+  snprintf(key8, sizeof key8, "h_c08|poll|sources=%d|timeout=%s", n, timeout < 0 ? "infinite" : "finite");
   hx_begin();
   vk_set_hang_hook(c08_hang);
   g_kind8 = 1;
@@ -584,6 +586,7 @@ static void c09_run(int tier, long cfg)
     snprintf(key9 + strlen(key9), sizeof key9 - strlen(key9), "|second=%s,%s,%s%s", os_names[su[1].os], ins_names[su[1].ins], cs_names[su[1].cs],
              su[1].expired_deadline ? ",deadline-expired" : "");
   hx_desc("%s", key9);
+  snprintf(key9, sizeof key9, "h_c09|sources=%d", n == 2 ? 3 : 1);
   hx_begin();
   vk_set_hang_hook(c09_hang);
   struct proc procs[3];
